@@ -112,6 +112,11 @@ InverseExact ==
   Final => \A q \in lay.req :
      /\ ras[q].outCells = CellsOf(q) \cap lay.pop
      /\ ras[q].outBlocks = {b \in lay.blk : CellsOf(b) \subseteq CellsOf(q)}
+\* the inverse assembler exists exactly when there is something to hand a value to
+\* (add(): `if len(self.outputs) >= 1`) - one populated cell inside is enough
+HasInv(q) == ras[q].outCells # {} \/ ras[q].outBlocks # {}
+SupplyReachesConstants ==
+  Final => \A q \in lay.req : (CellsOf(q) \cap lay.pop # {}) => HasInv(q)
 \* progress: every assembler is added (no deadlock before Final)
 AddsAll == <>Final
 
@@ -135,6 +140,7 @@ Obl ==
                           phIn |-> SetSeq(ras[q].phIn),
                           self |-> SetSeq(ras[q].self),
                           outCells |-> SetSeq(ras[q].outCells),
-                          outBlocks |-> SetSeq({RectJ(b) : b \in ras[q].outBlocks})] : q \in lay.req}),
+                          outBlocks |-> SetSeq({RectJ(b) : b \in ras[q].outBlocks}),
+                          inv |-> HasInv(q)] : q \in lay.req}),
          nodes |-> SetSeq(nodes)]))
 =============================================================================
